@@ -26,7 +26,8 @@ def splitArrow (ts : List String) : List String × List String :=
   (ts.takeWhile (· ≠ "=>"), (ts.dropWhile (· ≠ "=>")).drop 1)
 
 def parseKinds (t : String) : List String := if t == "-" || t == "" then [] else t.splitOn ","
-def normProps (t : String) : String := if t == "-" then "{}" else t
+/-- source property text as the monitor compares it with the loaded one: the Go types the loader must produce -/
+def normProps (t : String) : String := loadText (if t == "-" then "{}" else t)
 def normKind (t : String) : String := if t == "-" then "" else t
 
 def updSrc (st : St) (name : String) (f : SrcG → SrcG) : Option St :=
@@ -147,6 +148,8 @@ def step (st : St) (ts : List String) : St × String :=
   | ["reset"], ["ok"] => ({}, "ok")
   -- scale boundary ops: the re-pointed relationship starts at a node of another kind combination, so an exact
   -- metrics comparison must reject it whatever the size of the graph
+  | ["nandump", _], ["nandump", "rejected"] => (st, "ok")
+  | ["nandump", _], other => (st, "reject unsupported-float-dumped " ++ " ".intercalate other)
   | ["scale", _], ["ok"] => ({}, "ok")
   | ["scaledump", _], "ok" :: _ => (st, "ok")
   | ["scaleverify"], "ok" :: _ => (st, "ok")
